@@ -162,7 +162,7 @@ class Ctx:
         bad = scan_forbidden(LEAN, module)
         if bad:
             self.proof["broken"].append({"theorem": "*", "why": "forbidden construct: %s" % bad[:3]})
-        ok, log = self.lake_build([module])
+        ok, log = self.lake_build([module, "WaVerif.Base.AuditCmd"])
         names_in_src = re.findall(r"^\s*theorem\s+([^\s:({\[]+)", open(src).read(), re.M)
         if not ok:
             failing = sorted(set(re.findall(r"error: .*?([\w/]+\.lean):(\d+)", log)))
